@@ -142,6 +142,13 @@ func (m *memtable) remove(id uint32) error {
 	m.mu.Lock()
 	defer m.mu.Unlock()
 
+	// Same rule as add: freeze() takes m.mu, so a remove either finishes before the
+	// memtable is frozen (and is flushed with it) or sees it frozen here; it can never
+	// be acknowledged against a memtable whose segment has already been written
+	if m.frozen.Load() {
+		return errMemtableFrozen
+	}
+
 	return m.index.Remove(id)
 }
 
